@@ -57,7 +57,7 @@ int main(int argc, char** argv) {
         { boost::archive::binary_oarchive ob(sb); ob << static_cast<const M&>(*objs[src]); }
         auto scratch = std::make_unique<M>();
         { boost::archive::binary_iarchive ib(sb); ib >> *scratch; }
-        std::printf("#BINARY-SNAP-BEGIN\n"); D::snap_r(*scratch, "#SNAPB"); std::printf("#BINARY-SNAP-END\n");
+        std::printf("#BINARY-SNAP-BEGIN\n"); D::snap_r(*scratch, "#SNAPB"); D::data_r(*scratch, "B"); std::printf("#BINARY-SNAP-END\n");
       }
 #endif
       else {
@@ -79,6 +79,7 @@ int main(int argc, char** argv) {
       if (!objs[k]) continue;
       std::string tag = k == 0 ? "SNAP" : ("SNAP@" + std::to_string(k));
       D::snap_r(*objs[k], tag.c_str());
+      D::data_r(*objs[k], std::to_string(k).c_str());
       if (k == 0) {
 #define X(N) std::printf("FLAG %d or=%d and=%d\n", N, (int)H_CFG::template flag_or<Flag<N>>(*objs[0]), (int)H_CFG::template flag_and<Flag<N>>(*objs[0]));
         H_FLAGS(X)
